@@ -29,7 +29,9 @@ class LambdaTokenTranslator(AbstractTranslator):
                         condition_symbol = '!='
 
                 if parsed_literal[1]:
-                    condition_value = parsed_literal[1]
+                    # the number is written out again as Python writes it (">007" is > 7: a leading zero is not Python)
+                    condition_value = repr(float(parsed_literal[1])) if parsed_literal[3] or parsed_literal[6] \
+                        else str(int(parsed_literal[1]))
                 else:
                     condition_value = expression
 
